@@ -106,3 +106,149 @@ Proof.
   - destruct H as (A & _ & C). rewrite A. cbn [bind]. destruct (format (gl_data L) d is_now absolute invert); [split; [reflexivity|exact C]|reflexivity].
   - rewrite H. reflexivity.
 Qed.
+
+(* ====================================================================================================================================
+   Duration.in_words / Interval.in_words (the skeleton) and DateTime/Date.diff_for_humans (the wiring into format_diff)
+   ==================================================================================================================================== *)
+From PV Require Import Model.PdBase Model.DiffHumans.
+
+(* the loop (left fold of the translated body, appending) = DiffFormat.words_parts (which conses in the same order) *)
+Lemma Duration_loop_spec L : forall l parts,
+  glue_Duration_in_words_loop L parts l = bind (words_parts (gl_data L) l) (fun rest => Ok (parts ++ rest)).
+Proof.
+  induction l as [|[u c] r IH]; intros parts; cbn [glue_Duration_in_words_loop words_parts bind]; [rewrite app_nil_r; reflexivity|].
+  unfold glue_Duration_in_words_step. rewrite Z.gtb_ltb. destruct (0 <? Z.abs c); [|apply IH].
+  unfold loc_translation, mk_ukey, loc_plural. cbn [fst snd].
+  destruct (lget (gl_data L) _) as [o|e]; cbn [bind]; [|reflexivity].
+  destruct (fmt_count o c) as [s|e]; cbn [bind]; [|reflexivity].
+  rewrite IH. unfold lp_append. destruct (words_parts (gl_data L) r) as [rest|e]; cbn [bind]; [|reflexivity].
+  rewrite <- app_assoc. reflexivity.
+Qed.
+Lemma Interval_loop_spec L : forall l parts,
+  glue_Interval_in_words_loop L parts l = bind (words_parts (gl_data L) l) (fun rest => Ok (parts ++ rest)).
+Proof.
+  induction l as [|[u c] r IH]; intros parts; cbn [glue_Interval_in_words_loop words_parts bind]; [rewrite app_nil_r; reflexivity|].
+  unfold glue_Interval_in_words_step. rewrite Z.gtb_ltb. destruct (0 <? Z.abs c); [|apply IH].
+  unfold loc_translation, mk_ukey, loc_plural. cbn [fst snd].
+  destruct (lget (gl_data L) _) as [o|e]; cbn [bind]; [|reflexivity].
+  destruct (fmt_count o c) as [s|e]; cbn [bind]; [|reflexivity].
+  rewrite IH. unfold lp_append. destruct (words_parts (gl_data L) r) as [rest|e]; cbn [bind]; [|reflexivity].
+  rewrite <- app_assoc. reflexivity.
+Qed.
+
+(* what is left once the locale is loaded: the code's tail = DiffFormat.in_words on the loaded data *)
+Ltac words_tail L d us :=
+  unfold in_words; change (unit_counts d) with (glue_Duration_in_words_intervals (mkgwords d us));
+  destruct (words_parts (gl_data L) _) as [parts|e]; cbn [bind]; [|reflexivity];
+  cbn [app]; destruct parts as [|p ps]; cbn [lp_truth negb gw_us];
+  [ rewrite Z.gtb_ltb; destruct (0 <? Z.abs us); unfold loc_translation, mk_ukey, loc_plural; cbn [fst snd];
+    (destruct (lget (gl_data L) _) as [o|e]; cbn [bind]; [|reflexivity]); unfold fmt_count;
+    (destruct (node_format o _) as [s|e]; [|reflexivity]); reflexivity
+  | reflexivity ].
+
+Lemma eff_match st loc : match loc with None => st | Some w_ => w_ end = eff st loc.
+Proof. destruct loc; reflexivity. Qed.
+
+Lemma Duration_in_words_loaded c st loc d us sep L c' : glue_Locale_load c (eff st loc) = Ok (L, c') ->
+  glue_Duration_in_words c st (mkgwords d us) loc sep = match in_words (gl_data L) d us sep with Ok s => Ok (s, c') | Raise e => Raise e end.
+Proof.
+  intros H. unfold glue_Duration_in_words, glue_locale, glue_get_locale. cbv zeta. rewrite eff_match, H. cbv beta iota.
+  rewrite Duration_loop_spec. unfold lp_nil. words_tail L d us.
+Qed.
+
+Theorem glue_Duration_in_words_step_thm c st loc d us sep : cache_ok c ->
+  match glue_Duration_in_words c st (mkgwords d us) loc sep with
+  | Ok (s, c') => step st (SWords loc d us sep) = (st, Ok s) /\ cache_ok c'
+  | Raise e => step st (SWords loc d us sep) = (st, Raise e)
+  end.
+Proof.
+  intros K. cbn [step]. pose proof (glue_load_spec c (eff st loc) K) as H.
+  destruct (glue_Locale_load c (eff st loc)) as [[L c']|e] eqn:G.
+  - rewrite (Duration_in_words_loaded _ _ _ _ _ _ _ _ G). destruct H as (A & _ & C). rewrite A. cbn [bind].
+    destruct (in_words (gl_data L) d us sep); [split; [reflexivity|exact C]|reflexivity].
+  - unfold glue_Duration_in_words, glue_locale, glue_get_locale. cbv zeta. rewrite eff_match, G, H. reflexivity.
+Qed.
+
+(* Interval.in_words loads `locale or pendulum.get_locale()`: the configured locale also for locale="" *)
+Definition falsy_is_none (loc : option pstr) : option pstr := match loc with Some [] => None | x => x end.
+Lemma opt_str_or_eff st loc : opt_str_or loc st = eff st (falsy_is_none loc).
+Proof. destruct loc as [[|x r]|]; reflexivity. Qed.
+
+Lemma Interval_in_words_loaded c st loc d us sep L c' : glue_Locale_load c (eff st (falsy_is_none loc)) = Ok (L, c') ->
+  glue_Interval_in_words c st (mkgwords d us) loc sep = match in_words (gl_data L) d us sep with Ok s => Ok (s, c') | Raise e => Raise e end.
+Proof.
+  intros H. unfold glue_Interval_in_words, glue_get_locale. cbv zeta. rewrite opt_str_or_eff, H. cbv beta iota.
+  rewrite Interval_loop_spec. unfold lp_nil. change (glue_Interval_in_words_intervals (mkgwords d us)) with (glue_Duration_in_words_intervals (mkgwords d us)).
+  words_tail L d us.
+Qed.
+
+Theorem glue_Interval_in_words_step_thm c st loc d us sep : cache_ok c ->
+  match glue_Interval_in_words c st (mkgwords d us) loc sep with
+  | Ok (s, c') => step st (SWords (falsy_is_none loc) d us sep) = (st, Ok s) /\ cache_ok c'
+  | Raise e => step st (SWords (falsy_is_none loc) d us sep) = (st, Raise e)
+  end.
+Proof.
+  intros K. cbn [step]. pose proof (glue_load_spec c (eff st (falsy_is_none loc)) K) as H.
+  destruct (glue_Locale_load c (eff st (falsy_is_none loc))) as [[L c']|e] eqn:G.
+  - rewrite (Interval_in_words_loaded _ _ _ _ _ _ _ _ G). destruct H as (A & _ & C). rewrite A. cbn [bind].
+    destruct (in_words (gl_data L) d us sep); [split; [reflexivity|exact C]|reflexivity].
+  - unfold glue_Interval_in_words, glue_get_locale. cbv zeta. rewrite opt_str_or_eff, G, H. reflexivity.
+Qed.
+
+(* the two in_words are the same function of (state, receiver, separator) except for locale="" *)
+Corollary Interval_in_words_is_Duration_in_words c st loc w sep : loc <> Some [] ->
+  glue_Interval_in_words c st w loc sep = glue_Duration_in_words c st w loc sep.
+Proof.
+  intros N. destruct w as [d us]. assert (F : falsy_is_none loc = loc) by (destruct loc as [[|x r]|]; try reflexivity; congruence).
+  destruct (glue_Locale_load c (eff st loc)) as [[L c']|e] eqn:G.
+  - rewrite (Duration_in_words_loaded _ _ _ _ _ _ _ _ G). rewrite <- F in G. rewrite (Interval_in_words_loaded _ _ _ _ _ _ _ _ G). reflexivity.
+  - unfold glue_Interval_in_words, glue_Duration_in_words, glue_locale, glue_get_locale. cbv zeta. rewrite opt_str_or_eff, eff_match, F, G. reflexivity.
+Qed.
+
+(* ---------- DateTime.diff_for_humans / Date.diff_for_humans ---------- *)
+(* is_now = (other is None); the value compared with = other, else the clock reading; diff = self.diff(that value); then format_diff with
+   exactly (diff, is_now, absolute, locale) *)
+Definition dfh_other (clock : pdt) (other : option pdt) : pdt := match other with Some b => b | None => clock end.
+Definition dfh_is_now (other : option pdt) : bool := match other with Some _ => false | None => true end.
+Definition dfh_model (st : pstr) (clock : pdt) (rs : bool) (a : pdt) (other : option pdt) (absolute : bool) (loc : option pstr) : result pstr :=
+  bind (diff_comps rs a (dfh_other clock other)) (fun ci => snd (step st (SFmt loc (fst ci) (dfh_is_now other) absolute (snd ci)))).
+
+Theorem glue_DateTime_diff_for_humans_thm c st clock rs a other absolute loc : cache_ok c ->
+  match glue_DateTime_diff_for_humans c st clock rs a other absolute loc with
+  | Ok (s, c') => dfh_model st clock rs a other absolute loc = Ok s /\ cache_ok c'
+  | Raise e => dfh_model st clock rs a other absolute loc = Raise e
+  end.
+Proof.
+  intros K. unfold glue_DateTime_diff_for_humans, dfh_model, h_diff. cbv zeta.
+  destruct other as [b|]; cbn [dfh_other dfh_is_now]; cbv beta iota;
+  (destruct (diff_comps rs a _) as [[d inv]|e]; cbn [bind fst snd]; [|reflexivity]);
+  match goal with |- context [glue_format_diff c st (mkgdiff d inv) ?n absolute loc] =>
+    pose proof (glue_format_diff_step c st loc d n absolute inv K) as H; destruct (glue_format_diff c st (mkgdiff d inv) n absolute loc) as [[s c']|e] end;
+  try (destruct H as [H C]; rewrite H; split; [reflexivity|exact C]); rewrite H; reflexivity.
+Qed.
+
+Theorem glue_Date_diff_for_humans_thm c st clock rs a other absolute loc : cache_ok c ->
+  match glue_Date_diff_for_humans c st clock rs a other absolute loc with
+  | Ok (s, c') => dfh_model st clock rs a other absolute loc = Ok s /\ cache_ok c'
+  | Raise e => dfh_model st clock rs a other absolute loc = Raise e
+  end.
+Proof. exact (glue_DateTime_diff_for_humans_thm c st clock rs a other absolute loc). Qed.
+
+(* with an explicit other and a locale that loads, this is Model/DiffHumans.v diff_for_humans *)
+Corollary dfh_model_is_DiffHumans st clock rs a b absolute loc L : load (eff st loc) = Ok L ->
+  dfh_model st clock rs a (Some b) absolute loc = diff_for_humans L rs a b absolute.
+Proof.
+  intros A. unfold dfh_model, diff_for_humans. cbn [dfh_other dfh_is_now step snd]. rewrite A. reflexivity.
+Qed.
+
+(* ---------- Locale.plural / ordinal / ordinalize ---------- *)
+Theorem glue_Locale_plural_spec L n : glue_Locale_plural L n = lplural L n.
+Proof. reflexivity. Qed.
+Theorem glue_Locale_ordinal_spec L n : glue_Locale_ordinal L n = lordinal L n.
+Proof. reflexivity. Qed.
+Theorem glue_Locale_ordinalize_spec L n : glue_Locale_ordinalize L n = ordinalize L n.
+Proof.
+  unfold glue_Locale_ordinalize, ordinalize, ordinalize_with, loc_get_custom_ordinal, glue_Locale_ordinal, pcat.
+  destruct (lget L _) as [o|e]; cbn [bind]; [|reflexivity].
+  destruct (truthy o); cbn [negb]; [|reflexivity]. destruct (node_str o); reflexivity.
+Qed.
